@@ -180,3 +180,30 @@ class Check:
                   '%.2fs' % (self.pid, self.tier, n_ob, n_ok, len(unlisted), len(listed),
                              time.time() - self.t0))
         return 1 if unlisted else 0
+
+
+
+class Trial(Check):
+    """A sandbox collector for a symbolic proof attempt: obligations and violations are recorded
+    but nothing is printed or written.  If the attempt succeeds it is merged into the real check;
+    if it fails the caller falls back to a witness search (a VIOLATION needs a concrete input)."""
+
+    def __init__(self, parent):
+        Check.__init__(self, parent.pid, parent.tier, parent.repo, out_dir=parent.out_dir, quiet=True)
+
+    def merge_into(self, ck):
+        ck.obligations.extend(self.obligations)
+        for v in self.violations:
+            ck.violation(v['rule'], v['key'], v['loc'], v['message'], v['detail'])
+        for k, items in self.analysed.items():
+            for it in items:
+                ck.saw(k, it)
+        for smp in self.samples:
+            ck.sample(smp)
+        ck.floor_failures.extend(self.floor_failures)
+        ck.extra.setdefault('floors', {}).update(self.extra.get('floors', {}))
+        for k, v in self.extra.items():
+            if k != 'floors':
+                ck.extra[k] = v
+        if self.exhaustive is not None:
+            ck.exhaustive = self.exhaustive
